@@ -31,8 +31,19 @@ def selList : List Sel → List Sel
   | x :: xs => sel x :: selList xs
 end
 
+theorem dir_isConst (d : Dir) : (T.dir d).isConst = d.isConst := by
+  simp only [Dir.isConst, dir]
+  exact (T.args_perm d.args).all_eq
+
+theorem dirs_const {ds : List Dir} (h : ds.all Dir.isConst = true) : (ds.map T.dir).all Dir.isConst = true := by
+  rw [List.all_map]
+  simpa [Function.comp_def, dir_isConst] using h
+
+/-- the directives of a variable definition get their arguments re-ordered as well -/
+def varDef (v : VarDef) : VarDef := { v with dirs := v.dirs.map T.dir, dirsConst := T.dirs_const v.dirsConst }
+
 def defn : Def → Def
-  | .op k nm vars dirs id sels => .op k nm vars (dirs.map T.dir) id (T.sels (T.selList sels))
+  | .op k nm vars dirs id sels => .op k nm (vars.map T.varDef) (dirs.map T.dir) id (T.sels (T.selList sels))
   | .frag n on dirs id sels => .frag (T.frag n) on (dirs.map T.dir) id (T.sels (T.selList sels))
   | .ts a b => .ts a b
 
@@ -40,7 +51,8 @@ def doc (d : Doc) : Doc := { defs := d.defs.map T.defn }
 
 def node : Node → Node
   | .document d => .document (T.doc d)
-  | .operation k nm vars dirs sels => .operation k nm vars (dirs.map T.dir) (T.sels (T.selList sels))
+  | .operation k nm vars dirs sels => .operation k nm (vars.map T.varDef) (dirs.map T.dir) (T.sels (T.selList sels))
+  | .varDef v => .varDef (T.varDef v)
   | .fragmentDef n on dirs => .fragmentDef (T.frag n) on (dirs.map T.dir)
   | .directive d => .directive (T.dir d)
   | .selectionSet id sels => .selectionSet id (T.sels (T.selList sels))
@@ -106,14 +118,13 @@ theorem objFieldsNodes_kinds : ∀ (fs : List ObjField) (n : Node), n ∈ objFie
 end
 
 theorem map_node_id (T : Tr) (l : List Node) (hl : ∀ n ∈ l, n.isValueish = true ∨ (∃ a, n = .argument a) ∨
-    (∃ v, n = .varDef v) ∨ (∃ t, n = .typeNode t)) : l.map T.node = l := by
+    (∃ t, n = .typeNode t)) : l.map T.node = l := by
   induction l with
   | nil => rfl
   | cons a as ih =>
     rw [List.map_cons, ih (fun n hn => hl n (List.mem_cons_of_mem _ hn))]
-    rcases hl a (List.mem_cons_self ..) with h | ⟨x, rfl⟩ | ⟨x, rfl⟩ | ⟨x, rfl⟩
+    rcases hl a (List.mem_cons_self ..) with h | ⟨x, rfl⟩ | ⟨x, rfl⟩
     · cases a <;> simp_all [Node.isValueish, Tr.node]
-    · rfl
     · rfl
     · rfl
 
@@ -180,23 +191,29 @@ theorem selsTop_tr (T : Tr) (sels : List Sel) :
   rw [← selsNodes_eq_flatMap]
   exact selsNodes_tr T sels
 
-theorem varDefsNodes_map (T : Tr) (vars : List VarDef) : (vars.flatMap varDefNodes).map T.node = vars.flatMap varDefNodes :=
-  map_node_id T _ (fun n hn => by
-    simp only [List.mem_flatMap] at hn
-    obtain ⟨v, _, hn⟩ := hn
-    simp only [varDefNodes, List.mem_cons, List.mem_append, List.not_mem_nil, or_false] at hn
-    rcases hn with rfl | hn | rfl
-    · exact Or.inr (Or.inr (Or.inl ⟨_, rfl⟩))
-    · cases hd : v.default with
-      | none => simp [hd] at hn
-      | some dv => rw [hd] at hn; exact Or.inl (valueNodes_kinds _ n hn)
-    · exact Or.inr (Or.inr (Or.inr ⟨_, rfl⟩)))
+theorem valueNodes_map (T : Tr) (v : Value) : (valueNodes v).map T.node = valueNodes v :=
+  map_node_id T _ (fun n hn => Or.inl (valueNodes_kinds _ n hn))
+
+theorem varDefNodes_tr (T : Tr) (v : VarDef) : (varDefNodes (T.varDef v)).Perm ((varDefNodes v).map T.node) := by
+  simp only [varDefNodes, Tr.varDef, List.map_cons, List.map_append]
+  refine List.Perm.cons _ (List.Perm.append ?_ (List.Perm.cons _ (dirsNodes_tr T v.dirs)))
+  cases v.default with
+  | none => exact List.Perm.refl _
+  | some dv => simp only [valueNodes_map]; exact List.Perm.refl _
+
+theorem varDefsNodes_tr (T : Tr) (vars : List VarDef) :
+    ((vars.map T.varDef).flatMap varDefNodes).Perm ((vars.flatMap varDefNodes).map T.node) := by
+  induction vars with
+  | nil => exact List.Perm.refl _
+  | cons v vs ih =>
+    simp only [List.map_cons, List.flatMap_cons, List.map_append]
+    exact (varDefNodes_tr T v).append ih
 
 theorem defNodes_tr (T : Tr) (x : Def) : (defNodes (T.defn x)).Perm ((defNodes x).map T.node) := by
   cases x with
   | op k nm vars dirs id sels =>
-    simp only [Tr.defn, defNodes, List.map_cons, List.map_append, varDefsNodes_map]
-    exact List.Perm.cons _ (((List.Perm.refl _).append (dirsNodes_tr T dirs)).append (List.Perm.cons _ (selsTop_tr T sels)))
+    simp only [Tr.defn, defNodes, List.map_cons, List.map_append]
+    exact List.Perm.cons _ (((varDefsNodes_tr T vars).append (dirsNodes_tr T dirs)).append (List.Perm.cons _ (selsTop_tr T sels)))
   | frag n on dirs id sels =>
     simp only [Tr.defn, defNodes, List.map_cons, List.map_append]
     exact List.Perm.cons _ ((dirsNodes_tr T dirs).append (List.Perm.cons _ (selsTop_tr T sels)))
